@@ -390,6 +390,14 @@ def inplace_methods(prog: Program) -> Set[str]:
     return names
 
 
+def _fresh_call(c: ast.Call) -> bool:
+    """A call whose value is certainly a new object nobody else holds: x.copy(), copy.copy / deepcopy(x), a tensor-class constructor."""
+    nm = dotted(c.func) or ""
+    base = nm.split(".")[-1] if nm else (c.func.attr if isinstance(c.func, ast.Attribute) else "")
+    return base in ("copy", "deepcopy", "ktensor", "ttensor", "tensor", "sptensor", "from_vector", "from_function", "from_tensor_type", "full",
+                    "to_tensor", "double")
+
+
 def effect_rule(prog: Program, res: Result, only: List[FuncInfo] = None) -> int:
     meths = inplace_methods(prog)
     if not {"normalize", "arrange", "redistribute", "fixsigns"} <= meths:
@@ -410,6 +418,8 @@ def effect_rule(prog: Program, res: Result, only: List[FuncInfo] = None) -> int:
             n += 1
             if isinstance(root, ast.Name):
                 res.ok("EFFECT", fi.short, desc, prog.loc(fi, st), f"receiver `{ast.unparse(recv)}`")
+            elif isinstance(root, ast.Call) and not _fresh_call(root):
+                res.undecided("EFFECT", fi.short, desc, prog.loc(fi, st), f"receiver is the value of `{ast.unparse(root)[:50]}`, not known to be a fresh object")
             elif isinstance(root, ast.Call):
                 res.bad("EFFECT", fi.short, desc, prog.loc(fi, st),
                         f"the receiver `{ast.unparse(recv)[:60]}` is a temporary (the value of a call) and the statement keeps neither it nor the "
